@@ -1010,7 +1010,7 @@ func runL2(args []string) {
 			holds[p] = getBool(resp, strings.ToLower(p))
 		}
 		holds["C16"] = det
-		if len(early) < 120 {
+		if len(early) < 300 {
 			early = append(early, earlyCase{c, res.key(), res.obs()})
 		}
 		if valuesStray != "" {
